@@ -55,6 +55,8 @@ def strategy(draw):
             lo = f0t * draw(gen.floats(1.3, 3.0))
         else:
             hi = f0t * draw(gen.floats(0.3, 0.75))
+    if lo is not None and hi is not None and draw(gen.chance(3)):
+        lo, hi = hi, lo            # limits may be given in either order (the code sorts them)
     return dict(f0t=f0t, npts=npts, bumps=bumps, sd=sd, lw=draw(gen.log_floats(5, 600)), nw=int(round(draw(gen.log_floats(1, 400)))),
                 fstd=fstd, range=[lo, hi], verbose=draw(st.sampled_from([0, 1, 2])),
                 lw_factor=draw(gen.floats(1.0, 20.0)), nw_add=draw(st.integers(0, 300)), fstd_factor=draw(gen.floats(0.01, 1.0)))
@@ -257,5 +259,7 @@ def check_case(case):
         labels.append(f"edge={f0}")
     if rng != (None, None):
         labels.append("bounded-range")
+    if rng[0] is not None and rng[1] is not None and rng[0] > rng[1]:
+        labels.append("limits-in-reverse-order")
     nontrivial = 0 < sum(got) < 9 and decidable >= 7
     return dict(labels=labels, nontrivial=nontrivial)
